@@ -89,6 +89,7 @@ type Engine struct {
 	nondets []*Nondet
 	ndOcc   map[string]int
 	clock   *Term
+	tickPreload bool
 	pending []*PendingGo
 	cfgs    map[*ssa.Function]*FuncCFG
 	catchers []*Catcher
